@@ -959,6 +959,15 @@ impl<'a, 'c> Gen<'a, 'c>
 			let e = self.init_expr(&ty, depth);
 			fields.push((name, e));
 		}
+		// members of a literal are matched by name: any textual order
+		if fields.len() > 1 && self.c.chance(1, 2)
+		{
+			for i in (1..fields.len()).rev()
+			{
+				let j = self.c.draw(i + 1);
+				fields.swap(i, j);
+			}
+		}
 		Expr::StructLit(si, fields)
 	}
 
